@@ -23,7 +23,7 @@ def r03_1_normal_form(ctx: Ctx) -> RuleResult:
     rr = RuleResult("R03.1", "every Duration/Instant/Offset construction keeps the floor-day + nanosecond-of-day normal form and the day/second range", min_instances=40)
     groups = select(global_sweep(ctx), R031_TARGETS)
     rr.states = ctx.cache.get("sweep_steps", 0)
-    decide(rr, groups, "R03.1", R031_EXPECTED)
+    decide(rr, groups, "R03.1", R031_EXPECTED, ctx)
     return rr
 
 
